@@ -177,18 +177,21 @@ pub fn gen_doc(rng: &mut Rng) -> String {
         "cook time: 10 min", "cook time: [1]", "\"prep time\": 5 min", "'cook time': 1h", "\"time\": 2h", "? prep time\n: 7", "prep_time: 5", "duration: 1h",
         "servings: 4", "servings: [2, 4]", "servings: muchas", "servings: 2|4", "serves: 3", "yield: 4 4", "tags: [a, b]", "tags: a, b,, a", "tags: {a: 1}",
         "author: Ana <http://a.b>", "author: {name: Ñ}", "author: 7", "source: {url: 1}", "locale: es_ES", "locale: español", "description: [x]",
-        "日本: 料理", "größe: groß", "nota: añadir — ¡ya!", "x : y", "x:y", "  time : 3h", "\ttime: 1h", "time:", "time:1h", "1: uno", "true: sí", "~: nada",
-        "nutrition:\n  time: mañana\n  servings: dos", "extra:\n    prep time: x", "# time: 1h", "", "   ", "a: [", "b: 'x", "time: 1h\ntime: 2h", "- a", "é: \"\\xZ\"",
-        "cook time : 5", "time\u{00A0}: 1h", "\u{000B}time: 1h", "\u{3000}cook time: 1h", "image: x.png", "course: dinner",
+        "日本: 料理", "größe: groß", "nota: añadir — ¡ya!", "x : y", "  time : 3h", "time:", "1: uno", "true: sí", "~: nada",
+        "nutrition:\n  time: mañana\n  servings: dos", "extra:\n    prep time: x", "# time: 1h", "", "   ",
+        "cook time : 5", "time\u{00A0}: 1h", "\u{3000}cook time: 1h", "image: x.png", "course: dinner", "prep time:   5", "cook time:\n  10 min",
     ];
+    // lines that usually make the whole block a YAML error (kept rare: one document in eight gets one)
+    const ODD: &[&str] = &["a: [", "b: 'x", "time: 1h\ntime: 2h", "- a", "é: \"\\xZ\"", "x:y", "time:1h", "\ttime: 1h", "\u{000B}time: 1h", "ñandú: [é, \"", "日本: 'x"];
     let n = 1 + rng.below(7);
     let indent = if rng.chance(1, 5) { "  " } else { "" };
     let mut s = String::new();
     if rng.chance(1, 8) { s.push_str(rng.pick_str(&["\n", "  \n", "\u{FEFF}"])); }
     s.push_str("---\n");
     if rng.chance(1, 12) { s.push_str("{time: 1h, prep time: 5 min, servings: 2}\n"); }
-    for _ in 0..n {
-        let e = rng.pick_str(LINES);
+    let odd_at = if rng.chance(1, 8) { rng.below(n) } else { n };
+    for i in 0..n {
+        let e = if i == odd_at { rng.pick_str(ODD) } else { rng.pick_str(LINES) };
         for line in e.split('\n') { s.push_str(indent); s.push_str(line); s.push('\n'); }
     }
     s.push_str("---\n");
